@@ -6,9 +6,15 @@
    in apply order for every block); nothing else; a transaction that queued nothing returns the
    collection unchanged (no commit, no id); a rolled back transaction leaves the stream and the
    counter untouched (c02_rollback_no_trace).  The per-block id order under concurrent writers
-   is the L3 invariant of props/C08.v (ids drawn under the block latch). *)
+   is the L3 invariant of props/C08.v (ids drawn under the block latch).
+   [c15_stream_under_any_interleaving] (ConcStore.v): for ANY number of concurrent writers in ANY
+   interleaving, the stream is exactly one record per applied block commit, in apply order, for
+   the block it was applied to, with consecutive - hence distinct, non-zero after the first draw and
+   strictly increasing - ids; [c15_each_block_once]: a finished transaction contributed exactly its
+   dirty blocks, each once. *)
 From stdpp Require Import gmap sorting.
 From ColumnV Require Import GenShape Bytes Store StoreProofs StoreProofs2.
+From ColumnV Require ConcStore.
 Local Open Scope N_scope.
 
 Theorem c15_commit_stream : ∀ s t,
@@ -49,3 +55,17 @@ Proof. vm_compute. done. Qed.
 Theorem c15_shape : shape_id_drawn_under_latch = true ∧ shape_callback_under_latch = true ∧ shape_appends_after_apply_inside_latch = true.
 Proof. repeat split; reflexivity. Qed.
 Print Assumptions c15_shape.
+
+Theorem c15_stream_under_any_interleaving : ∀ s0 txns s,
+  ConcStore.all_emit s0 txns → ConcStore.reach (ConcStore.init s0 txns) s →
+  ∃ recs, emitted (ConcStore.st s) = emitted s0 ++ recs ∧ recs = ConcStore.trace_recs s0 (ConcStore.trace s) ∧
+          rblk <$> recs = ConcStore.eblk <$> ConcStore.trace s ∧
+          rid <$> recs = (λ k, nextid s0 + N.of_nat k) <$> seq 0 (length (ConcStore.trace s)).
+Proof. exact ConcStore.stream_is_trace. Qed.
+Print Assumptions c15_stream_under_any_interleaving.
+
+Theorem c15_each_block_once : ∀ s0 txns s t x,
+  ConcStore.reach (ConcStore.init s0 txns) s → ConcStore.finished s → txns !! t = Some x →
+  ConcStore.eblk <$> filter (λ e, ConcStore.etid e = t) (ConcStore.trace s) = dirty_blocks x.
+Proof. exact ConcStore.finished_all_applied. Qed.
+Print Assumptions c15_each_block_once.
